@@ -334,4 +334,20 @@ mod axv_types {
         let x: i64 = kani::any();
         assert!(VarInt::decode_zigzag(VarInt::encode_zigzag(x)) == x);
     }
+    //@ob [C16,C18:bool.write_to_writes_one_byte] level=bounded harness=bool_write_to_one_byte bound="a 16-byte buffer, every cursor within it, every content" text="Bool::write_to(buf, cursor) does not panic, writes exactly the byte at `cursor` (0 or 1), returns cursor + 1 and leaves every other byte of the buffer unchanged -- wherever in the buffer the value sits"
+    #[kani::proof]
+    fn bool_write_to_one_byte() {
+        use crate::types::core::SerializableType;
+        let mut buf: [u8; 16] = kani::any();
+        let before = buf;
+        let cursor: usize = kani::any();
+        kani::assume(cursor < 16);
+        let b: bool = kani::any();
+        let r = crate::types::bool::Bool(b).write_to(&mut buf, cursor);
+        assert!(matches!(r, Ok(c) if c == cursor + 1));
+        assert!(buf[cursor] == b as u8);
+        let k: usize = kani::any();
+        kani::assume(k < 16 && k != cursor);
+        assert!(buf[k] == before[k]);
+    }
 }
